@@ -829,17 +829,30 @@ class World:
         if hk is None:
             return None
         try:
-            klen = {"aes": 16, "generic": 24, "des3": 24}[kind]
-            val = self.secret_value(oid, klen)
-            if kind == "des3":
-                val = bytes((b & 0xFE) | (1 if bin(b & 0xFE).count("1") % 2 == 0 else 0) for b in val)
-            kt = {"aes": "CKK_AES", "generic": "CKK_GENERIC_SECRET", "des3": "CKK_DES3"}[kind]
-            tw = self.w.C_CreateObject(s=sh, tpl=T(("CKA_CLASS", "CKO_SECRET_KEY"), ("CKA_KEY_TYPE", kt), ("CKA_VALUE", val), ("CKA_PRIVATE", False), ("CKA_TOKEN", False),
-                                                   ("CKA_EXTRACTABLE", True), ("CKA_SENSITIVE", False), ("CKA_LABEL", b"twin")))
+            known = {}
+            if kind.endswith("_priv"):
+                # a private key of every type: each is stored by its own function of the library (RSA, DSA, DH, EC, EdDSA)
+                bt = base_template(kind, oid)
+                tw = self.w.C_CreateObject(s=sh, tpl=T(*bt) + T(("CKA_PRIVATE", False), ("CKA_TOKEN", False), ("CKA_EXTRACTABLE", True), ("CKA_SENSITIVE", False),
+                                                             ("CKA_LABEL", b"twin")))
+                tclass = T(*[(n, v) for n, v in bt if n in ("CKA_CLASS", "CKA_KEY_TYPE")])
+                for n, v in bt:
+                    if n in ("CKA_VALUE", "CKA_PRIVATE_EXPONENT", "CKA_PRIME_1", "CKA_PRIME_2", "CKA_EXPONENT_1", "CKA_EXPONENT_2", "CKA_COEFFICIENT"):
+                        known[K.C[n]] = bytes.fromhex(v) if isinstance(v, str) else bytes(v)
+            else:
+                klen = {"aes": 16, "generic": 24, "des3": 24}[kind]
+                val = self.secret_value(oid, klen)
+                if kind == "des3":
+                    val = bytes((b & 0xFE) | (1 if bin(b & 0xFE).count("1") % 2 == 0 else 0) for b in val)
+                kt = {"aes": "CKK_AES", "generic": "CKK_GENERIC_SECRET", "des3": "CKK_DES3"}[kind]
+                tw = self.w.C_CreateObject(s=sh, tpl=T(("CKA_CLASS", "CKO_SECRET_KEY"), ("CKA_KEY_TYPE", kt), ("CKA_VALUE", val), ("CKA_PRIVATE", False), ("CKA_TOKEN", False),
+                                                       ("CKA_EXTRACTABLE", True), ("CKA_SENSITIVE", False), ("CKA_LABEL", b"twin")))
+                tclass = T(("CKA_CLASS", "CKO_SECRET_KEY"), ("CKA_KEY_TYPE", kt))
+                known = {K.CKA_VALUE: val}
             if tw["rv"] != K.CKR_OK:
                 return None
             mech = {"m": K.CKM_AES_KEY_WRAP_PAD}
-            wr = self.w.C_WrapKey(s=sh, mech=mech, wkey=hk, key=tw["h"], out=256)
+            wr = self.w.C_WrapKey(s=sh, mech=mech, wkey=hk, key=tw["h"], out=8192)
             self.w.C_DestroyObject(s=sh, o=tw["h"])
             if wr["rv"] != K.CKR_OK:
                 return None
@@ -848,7 +861,9 @@ class World:
                 blob = blob[:5] + bytes([blob[5] ^ 0x10]) + blob[6:]
             elif mal == "trunc":
                 blob = blob[:-8]
-            tpl = T(("CKA_CLASS", "CKO_SECRET_KEY"), ("CKA_KEY_TYPE", kt))
+            tpl = list(tclass)
+            if mal in ("asprivate", "asprivate_ec") and kind.endswith("_priv"):
+                mal = None
             if mal in ("asprivate", "asprivate_ec"):
                 # the blob decrypts and passes the integrity check, but its content is not a PKCS#8 key of the requested type
                 tpl = T(("CKA_CLASS", "CKO_PRIVATE_KEY"), ("CKA_KEY_TYPE", "CKK_RSA" if mal == "asprivate" else "CKK_EC"))
@@ -867,8 +882,10 @@ class World:
                     raise self.V("C_UnwrapKey accepted a %s blob" % mal)
                 o = self._register(sh, r["h"], oid, st_[0], bool(token), private if private is not None else True, kind, label, "C_UnwrapKey")
                 self._judge_creation(sh, o, "C_UnwrapKey")
-                o.known = {K.CKA_VALUE: val}
+                o.known = known
                 self.count("unwrap_ok")
+                if kind.endswith("_priv"):
+                    self.count("unwrap_private_key_ok")
             else:
                 if r.get("h", 0) != 0:
                     raise self.V("failed C_UnwrapKey (%s) stored handle %d" % (K.rvname(rv), r["h"]))
@@ -1301,7 +1318,7 @@ def op_strategies(classes=LIGHT_CLASSES, p_bad=0.0, with_gen=True, ntok=2):
         max_size=4)
     s["find"] = st.tuples(st.just("find"), idx, findspec, st.lists(st.sampled_from([1, 1, 2, 3, 5, 64]), min_size=1, max_size=4))
     s["use"] = st.tuples(st.just("use"), idx, idx, st.integers(0, 17), st.sampled_from([False, False, True]))
-    s["unwrap"] = st.tuples(st.just("unwrap"), idx, st.sampled_from(["aes", "generic", "des3"]), tri, tri, st.sampled_from([None, None, None, "flip", "trunc", "asprivate", "asprivate_ec"]), bad_st(p_bad))
+    s["unwrap"] = st.tuples(st.just("unwrap"), idx, st.sampled_from(["aes", "generic", "des3", "rsa_priv", "dsa_priv", "dh_priv", "ec_priv", "ed_priv"]), tri, tri, st.sampled_from([None, None, None, "flip", "trunc", "asprivate", "asprivate_ec"]), bad_st(p_bad))
     s["derive"] = st.tuples(st.just("derive"), idx, tri, tri, bad_st(p_bad))
     s["setpin"] = st.tuples(st.just("setpin"), idx, st.integers(0, 3))
     s["inittoken"] = st.tuples(st.just("inittoken"), st.integers(0, ntok - 1))
